@@ -14,6 +14,7 @@ mod shared;
 
 mod common;
 mod c01;
+mod c02;
 
 use common::Args;
 use std::path::PathBuf;
@@ -43,6 +44,7 @@ fn main() {
     common::silence_panics();
     match driver.as_str() {
         "c01" => c01::run(&a),
+        "c02" => c02::run(&a),
         _ => {
             eprintln!("unknown driver {driver}");
             std::process::exit(2);
